@@ -38,6 +38,9 @@ type c13Case struct {
 	// the pod was created from the manifest of a pod bound earlier: its args annotation already carries common.ipinfos (an address
 	// IPAM never gave to THIS pod)
 	Carried bool `json:"carried,omitempty"`
+	// Reconf (statefulset, one pool): after the first bind the administrator changes the pool's gateway and VLAN (same ranges) and
+	// galaxy-ipam reloads; the pod is re-created (policy never: it keeps its IP) and bound again - the plugin must get the NEW settings
+	Reconf bool `json:"reconf,omitempty"`
 }
 
 func genC13() *rapid.Generator[c13Case] {
@@ -76,6 +79,7 @@ func genC13() *rapid.Generator[c13Case] {
 		c.Kind = rapid.SampledFrom([]string{"sts", "dp"}).Draw(t, "kind")
 		c.TwoNets = rapid.Bool().Draw(t, "twoNets")
 		c.Carried = rapid.IntRange(0, 3).Draw(t, "carried") == 0
+		c.Reconf = !c.Second && c.Kind == "sts" && rapid.IntRange(0, 3).Draw(t, "reconf") == 0
 		return c
 	})
 }
@@ -124,6 +128,9 @@ func checkC13(c c13Case, r *vcore.Rec) *vcore.Failure {
 	}
 	topo := ipamsim.Topo{Pools: pools, Nodes: []ipamsim.NodeT{{Name: "n0", IP: "10.49.27.3"}}}
 	wl := ipamsim.WL{Kind: c.Kind, Name: "a0", Replicas: 2}
+	if c.Reconf {
+		wl.Policy = "never"
+	}
 	for i := 0; i < c.K; i++ {
 		ip, _ := rangeIP(i)
 		wl.Ranges = append(wl.Ranges, []string{ip})
@@ -159,6 +166,40 @@ func checkC13(c c13Case, r *vcore.Rec) *vcore.Failure {
 	}
 	if berr, _ := w.Bind(pod.Name, pod.UID, "n0"); berr != nil {
 		return vcore.Failf("c13:bind", "bind failed: %v", berr)
+	}
+	if c.Reconf {
+		size := uint32(1) << (32 - uint(c.PrefixLen))
+		pool.Gateway = u32ip(c.Base + (c.GwOff+1)%size)
+		pool.Vlan = (c.Vlan + 7) % 4095
+		topo.Pools = []ipamsim.PoolT{pool}
+		w.SetConfig(topo.ConfigText())
+		if _, err, _ := w.Reload(); err != nil {
+			return vcore.Failf("harness:reload", "reload with changed pool settings failed: %v (%s)", err, topo.ConfigText())
+		}
+		// the pod is re-created under the same name; with policy never its reservation is reused
+		w.DeletePod(pod.Name)
+		for i := 0; i < 10; i++ {
+			if ok, _ := w.DeliverEvent(false); !ok {
+				break
+			}
+		}
+		for i := 0; i < 5; i++ {
+			if ran, _, _ := w.RunUnbind(0); !ran {
+				break
+			}
+		}
+		pod = w.CreatePod(0, &hc.WLs[0], hc.WLs[0].PodName(0))
+		if c.Carried {
+			c.Carried = false // (the second incarnation is a fresh object)
+		}
+		nodes, _, ferr, _ := w.Filter(pod.Name, []string{"n0"})
+		if ferr != nil || len(nodes) != 1 {
+			return vcore.Failf("c13:filter", "filter of the re-created pod failed: nodes=%v err=%v", nodes, ferr)
+		}
+		if berr, _ := w.Bind(pod.Name, pod.UID, "n0"); berr != nil {
+			return vcore.Failf("c13:bind", "bind of the re-created pod failed: %v", berr)
+		}
+		r.Class("pool_settings_changed_by_reload")
 	}
 	// what IPAM allocated and persisted, in request order
 	store := w.StoreList()
